@@ -113,6 +113,12 @@ def target_spec(name):
         units = [(f"{S}/fault/qsbr_fault.cpp", "qsbr_fault.o", fl)]
         units += [(f"{REPO}/{f}", f.replace(".cpp", ".o"), fl) for f in ["qsbr.cpp", "qsbr_ptr.cpp", "test_heap.cpp"]]
         return "g++", units, ["-pthread"], ["fault"]
+    if name in ("mx", "mx_tsan"):
+        san = SAN if name == "mx" else ["-fsanitize=thread"]
+        fl = BASE + HOOKS + STATS + san + ["-O1"]
+        units = [(f"{S}/mutex/mx_main.cpp", "mx_main.o", fl)]
+        units += [(f"{REPO}/{f}", f.replace(".cpp", ".o"), fl) for f in REPO_LIB]
+        return "g++", units, san + ["-pthread"], ["mutex"]
     if name in ("olc", "olc_nd"):
         fl = BASE + HOOKS + STATS + SAN + ["-O1"] + (["-DNDEBUG"] if name == "olc_nd" else [])
         units = [(f"{S}/conc_olc/olc_main.cpp", "olc_main.o", fl)]
@@ -1120,7 +1126,95 @@ def check_c16(pid, tier, seed):
     return finish(pid, res)
 
 
+C13_RULE = ("case = one run: 2-8 free-running plain threads issue seeded random mixes of get / insert / remove / empty / "
+            "scan_from on one mutex_db over a small key space (4-63 keys with shared prefixes), with a seeded "
+            "perturbation plan (yields, 1-50 us sleeps); every get hit is held for a generated number of re-reads; "
+            "oracle (timing independent): per-key linearizability of the stamped history incl. a final read of "
+            "every key, hit <=> owns_lock(), held bytes never change, no operation called after a hit returned "
+            "completes before the hit is released, progress watchdog (a leaked lock stops every thread), scans "
+            "under the lock stay ordered; crashes / sanitizer reports (ASan+UBSan; TSan in the thorough tier) "
+            "count as violations; non-trivial = operations of >= 2 threads on the same key overlapped and a held "
+            "hit overlapped a writer's call; distinct by run configuration")
+
+
+def check_c13(pid, tier, seed):
+    t0 = time.time()
+    exe = build("mx")
+    res = Result()
+    outdir = os.path.join(WORK, "run", pid)
+    shutil.rmtree(outdir, ignore_errors=True)
+    os.makedirs(outdir)
+    faildir = os.path.join(FOUND, pid, "found")
+    nrep = 0
+    for path in sorted(glob.glob(os.path.join(VERIF, "replays", pid, "*.txt"))):
+        nrep += 1
+        rc, out = replay_once(exe, [], path, timeout=1800)
+        if rc != 0:
+            res.violations.append((path, out[-300:]))
+    runs = 1500 if tier == "quick" else 60000
+    cmds = [[exe, "--seed", str(seed * 1000 + i), "--runs", str(runs), "--out", os.path.join(outdir, f"stats{i}.json"),
+             "--fail-dir", outdir] for i in range(NCPU)]
+    if tier == "thorough":
+        tsan = build("mx_tsan")
+        cmds += [[tsan, "--seed", str(seed * 1000 + 100 + i), "--runs", "3000", "--out",
+                  os.path.join(outdir, f"stats_t{i}.json"), "--fail-dir", outdir] for i in range(4)]
+    env = dict(os.environ, TSAN_OPTIONS="halt_on_error=1 exitcode=66")
+    for c, rc, out, err in run_parallel(cmds, timeout=6 * 3600, env=env):
+        if rc == 0:
+            continue
+        if rc == 1 and "FAILURE " in out:
+            line = [l for l in out.splitlines() if l.startswith("FAILURE ")][0]
+            path = line.split()[1]
+            msg = line.split("::", 1)[1].strip() if "::" in line else ""
+            # the schedule is the OS's: the replay re-runs the configuration up to 200 times
+            rc2, out2 = replay_once(c[0], [], path, timeout=3600)
+            os.makedirs(faildir, exist_ok=True)
+            dst = os.path.join(faildir, os.path.basename(path))
+            shutil.copy(path, dst)
+            if rc2 != 0:
+                res.violations.append((dst, msg))
+            else:
+                res.inconclusive.append(f"oracle failure did not recur in 200 re-runs of its configuration: {dst} ({msg})")
+        elif rc == "timeout":
+            res.inconclusive.append("worker hit the wall-clock budget")
+        else:
+            begins = [l for l in out.splitlines() if l.startswith("begin ")]
+            idx = begins[-1].split()[1] if begins else "0"
+            os.makedirs(faildir, exist_ok=True)
+            dst = os.path.join(faildir, f"C13_seed{c[2]}_run{idx}_crash.txt")
+            what = "ThreadSanitizer report (data race: an operation skipped the index lock)" if rc == 66 else \
+                   f"crash / sanitizer report (rc={rc})"
+            with open(dst, "w") as f:
+                f.write(f"# property C13 violated: {what}\n# {err.strip()[-1200:]}\n# harness: {os.path.basename(c[0])}\n"
+                        f"regen {c[2]} {idx}\n")
+            res.violations.append((dst, what + ": " + err.strip()[-200:]))
+    files = [os.path.join(outdir, f"stats{i}.json") for i in range(NCPU)] + \
+            [os.path.join(outdir, f"stats_t{i}.json") for i in range(4)]
+    counters, distinct, samples = merge_stats(files)
+    cov = {
+        "evaluations": int(counters.get("runs", 0)),
+        "distinct_nontrivial": int(distinct),
+        "rule": C13_RULE,
+        "samples": samples[:3] if samples else ["(no sample)"],
+        "operations": counters.get("operations", 0),
+        "held_hits": counters.get("held_hits", 0),
+        "runs_by_thread_count": {k[13:]: v for k, v in counters.items() if k.startswith("runs_threads_")},
+        "linearizability_search_budget_exceeded": counters.get("runs_with_linearizability_search_budget_exceeded", 0),
+        "tsan_build_used": tier == "thorough",
+        "regression_replays": nrep,
+        "inconclusive": res.inconclusive,
+        "exhaustive": False,
+    }
+    write_evidence(pid, tier, seed, "exploration", cov, time.time() - t0, len(res.violations),
+                   ["the harness does not own this schedule (std::mutex acquisition is not a scheduling point): coverage of "
+                    "interleavings is best effort, the oracle is timing independent",
+                    "a bug that needs one exact interleaving may be missed; runs are not bit-reproducible, the replay "
+                    "re-runs the failing configuration many times"])
+    return finish(pid, res)
+
+
 CHECKS = {
+    "C13": check_c13,
     "C16": check_c16,
     "C17": check_c17,
     "C08": check_seq,
@@ -1140,6 +1234,7 @@ CHECKS = {
 }
 
 REPLAY = {
+    "C13": ("mx", lambda pid: []),
     "C17": ("qp_dbg", lambda pid: []),
     "C08": ("seq", lambda pid: ["--prop", pid]),
     "C03": ("olc", lambda pid: ["--prop", pid]),
@@ -1168,7 +1263,7 @@ def main():
     a = ap.parse_args()
     os.makedirs(WORK, exist_ok=True)
     if a.build_all:
-        for t in ["seq", "enc_fast", "enc_san", "lock", "qsbr", "olc", "olc_nd", "qsbr_fault", "qp_dbg", "qp_ndbg"] + [f"cfgx_{i}" for i in range(16)]:
+        for t in ["seq", "enc_fast", "enc_san", "lock", "qsbr", "olc", "olc_nd", "qsbr_fault", "qp_dbg", "qp_ndbg", "mx"] + [f"cfgx_{i}" for i in range(16)]:
             build(t)
         return 0
     seed = a.seed if a.seed is not None else int(os.environ.get("VERIF_SEED", "1") or 1)
